@@ -454,6 +454,33 @@ Definition svcb_canonical_cmp_gen (composed : bool) (p1 : N) (t1 : name) (par1 :
 Definition m_svcb_canonical_cmp := svcb_canonical_cmp_gen svcb_canonical_target_composed.
 Definition svcb_enc (p : N) (t : name) (par : bytes) : bytes := be16 p ++ wire_abs t ++ par.
 
+(* IPSECKEY with a name gateway (gateway type 3) as coded: precedence,
+   gateway_type, algorithm (u8 each), then the gateway name with `name_cmp`
+   (IpseckeyGateway::partial_cmp, today) or `composed_cmp` (T1 reads which),
+   then the key octets.  The canonical form is the plain form. *)
+Definition P_TODO : N := 24.          (* Hash for IpseckeyGateway::None: todo!() *)
+Definition prefixed_name_cmp_gen (composed : bool) (pre1 : bytes) (t1 : name) (tail1 : bytes)
+           (pre2 : bytes) (t2 : name) (tail2 : bytes) : outcome comparison :=
+  match lex_cmp pre1 pre2 with
+  | Eq =>
+      do c <- (if composed then field_cmp (FNameRaw t1) (FNameRaw t2) else Ok (name_cmp t1 t2));
+      match c with
+      | Eq => Ok (lex_cmp tail1 tail2)
+      | _ => Ok c
+      end
+  | c => Ok c
+  end.
+Definition m_ipseckey_name_canonical_cmp (prec1 alg1 : N) (gw1 : name) (key1 : bytes)
+           (prec2 alg2 : N) (gw2 : name) (key2 : bytes) : outcome comparison :=
+  prefixed_name_cmp_gen ipseckey_gateway_name_composed [prec1; 3; alg1] gw1 key1 [prec2; 3; alg2] gw2 key2.
+(* Hash for IpseckeyGateway: nothing for None (or todo!()), else the value *)
+Definition ipseckey_gateway_hash_gen (none_panics : bool) (gw : option bytes) : outcome bytes :=
+  match gw with
+  | None => if none_panics then Panic P_TODO else Ok []
+  | Some feed => Ok feed
+  end.
+Definition m_ipseckey_gateway_hash := ipseckey_gateway_hash_gen ipseckey_hash_none_panics.
+
 (* UnknownRecordData inside ZoneRecordData::Unknown: == looks at the data
    (and at the type only if T1 finds that comparison); the Hash impl of
    ZoneRecordData feeds the type and the data *)
@@ -547,3 +574,5 @@ Definition c04_record_ccmp := m_record_canonical_cmp.
 Definition c04_svcb_ccmp := m_svcb_canonical_cmp.
 Definition c04_unknown_eq := m_unknown_eq.
 Definition c04_unknown_ccmp := m_unknown_canonical_cmp.
+Definition c04_ipseckey_ccmp := m_ipseckey_name_canonical_cmp.
+Definition c04_ipseckey_none_hash := m_ipseckey_gateway_hash None.
